@@ -43,7 +43,7 @@ TOL = 1e-9
 
 
 def classes(tier):
-    return ["numeric", "symbolic", "concat", "sim_bundled", "sim_partial", "split", "history", "wide", "arity"]
+    return ["numeric", "symbolic", "concat", "sim_bundled", "sim_partial", "split", "history", "wide", "arity", "usergate"]
 
 
 # ----------------------------------------------------------------------------- helpers
@@ -475,6 +475,76 @@ def _with_phases(rng, circuit, share=0.25):
 
 
 # ----------------------------------------------------------------------------- cases
+_USER_GATES = None
+
+
+def _user_gates():
+    """gate classes of a user's (built once per process, after the library is importable)"""
+    global _USER_GATES
+    if _USER_GATES is not None:
+        return _USER_GATES
+    import dataclasses
+
+    from orquestra.quantum.circuits import ControlledGate, Dagger, GateOperation
+
+    @dataclasses.dataclass(frozen=True)
+    class OpenControlledGate(ControlledGate):
+        """acts when every control is 0 (and is the identity otherwise)"""
+
+        @property
+        def matrix(self):
+            m = self.wrapped_gate.matrix
+            return sympy.Matrix.diag(m, sympy.eye(2 ** self.num_qubits - m.shape[0]))
+
+    @dataclasses.dataclass(frozen=True)
+    class TransposedGate(Dagger):
+        """reports the plain transpose of what it wraps"""
+
+        @property
+        def matrix(self):
+            return self.wrapped_gate.matrix.T
+
+    class OwnGate:
+        """a class of the user's own that implements the Gate protocol: another gate's matrix times a phase factor"""
+
+        def __init__(self, inner, factor):
+            self.inner, self.factor = inner, factor
+
+        name = "OwnGate"
+        params = ()
+        free_symbols = ()
+
+        @property
+        def num_qubits(self):
+            return self.inner.num_qubits
+
+        @property
+        def matrix(self):
+            return self.inner.matrix * sympy.sympify(self.factor)
+
+        def controlled(self, k):
+            return ControlledGate(self, k)
+
+        @property
+        def dagger(self):
+            return Dagger(self)
+
+        def bind(self, symbols_map):
+            return self
+
+        def replace_params(self, new_params):
+            return self
+
+        def __call__(self, *qubits):
+            return GateOperation(self, tuple(qubits))
+
+        def __repr__(self):
+            return f"OwnGate({self.inner!r}, {self.factor!r})"
+
+    _USER_GATES = {"open": OpenControlledGate, "transposed": TransposedGate, "protocol": OwnGate}
+    return _USER_GATES
+
+
 def _nontrivial(info):
     return info["n_ops"] >= 2 and (info["nonadjacent"] or info["idle"])
 
@@ -714,6 +784,42 @@ def run_case(ctx):
         ctx.check("stepwise-final", L.maxdiff(np.asarray(w, dtype=complex), ref) <= TOL * max(1.0, float(np.abs(ref).max())),
                   lambda: f"step-wise apply of {c!r} differs from the reference product")
         SymbolicSimulator().get_wavefunction(c, L.random_state(nprng, 2**c.n_qubits))
+        return
+    if cls == "usergate":
+        # gates whose CLASS is a user's: Gate is a protocol, so a circuit may hold a gate object the library has never
+        # seen - a class of the user's own that implements the protocol, or a subclass of one of the library's gate
+        # classes that reports a matrix of its own (open controls, a transposed "dagger").  "Each gate's own matrix"
+        # is whatever `gate.matrix` says; nothing may be inferred from the class the gate happens to derive from
+        n = rng.choice([2, 3, 3, 4, 5])
+        ops, descs = [], []
+        for _ in range(rng.randint(1, 4)):
+            kind = rng.choice(["open-controlled", "open-controlled", "protocol", "transposing-dagger", "library"])
+            base_nq = rng.choice([1, 1, 2]) if n >= 3 else 1
+            g, d = GC.rand_gate(rng, nprng, base_nq, wrap=0.1, custom=0.3, allow_u3=False)
+            if kind == "open-controlled" and g.num_qubits < n:
+                g, d = _user_gates()["open"](g, rng.randint(1, min(2, n - g.num_qubits))), f"OpenC.{d}"
+            elif kind == "protocol":
+                g, d = _user_gates()["protocol"](g, complex(math.cos(ph := round(rng.uniform(0.3, 2.8), 3)), math.sin(ph))), f"Own[{ph}].{d}"
+            elif kind == "transposing-dagger":
+                g, d = _user_gates()["transposed"](g), f"T.{d}"
+            ctx.mon.note("usergate:" + kind)
+            qs = GC.rand_qubits(rng, g.num_qubits, n)
+            ops.append(g(*qs))
+            descs.append(f"{d}@{','.join(map(str, qs))}")
+        c = Circuit(ops, n_qubits=n)
+        ctx.describe(f"usergate n={n} [" + "; ".join(descs) + "]", True)
+        try:
+            c.to_unitary()
+        except Exception:
+            return  # judged by the hook
+        v = L.random_state(nprng, 2**n, normalised=False)
+        w = v
+        for op in c.operations:
+            w = op.apply(w)
+        ref = GC.ref_unitary(c) @ v
+        ctx.check("stepwise-final", L.maxdiff(np.asarray(w, dtype=complex), ref) <= TOL * max(1.0, float(np.abs(ref).max())),
+                  lambda: f"step-wise apply of {c!r} differs from the reference product")
+        SymbolicSimulator().get_wavefunction(c, L.random_state(nprng, 2**n))
         return
     if cls == "split":
         n = rng.choice([1, 2, 3, 4, 5])
